@@ -1311,10 +1311,30 @@ func WrapEexec(t *sim.Tape, head, body, trailer []byte, binary bool) []byte {
 		out = append(out, cipher...)
 	} else {
 		upper := t.Bool(1, 3)
+		// one time in six a single hexadecimal digit is damaged (a byte that does
+		// not decode is not a read error: it must not be mistaken for one) -
+		// preferably the byte right after a '>' or '<', where the scanner looks
+		// two bytes ahead
+		bad := -1
+		if t.Choose(6) == 0 && len(cipher) > 5 {
+			bad = 4 + t.Choose(len(cipher)-4)
+			var cands []int
+			for k := 0; k+1 < len(body); k++ {
+				if body[k] == '>' || body[k] == '<' || body[k] == '%' {
+					cands = append(cands, 4+k+1)
+				}
+			}
+			if len(cands) > 0 && t.Bool(2, 3) {
+				bad = cands[t.Choose(len(cands))]
+			}
+		}
 		for i, c := range cipher {
 			h := fmt.Sprintf("%02x", c)
 			if upper {
 				h = strings.ToUpper(h)
+			}
+			if i == bad {
+				h = h[:1] + []string{"l", "x", "g", "~", "#"}[t.Choose(5)]
 			}
 			out = append(out, h...)
 			// white space is allowed anywhere after the first four digits... the
